@@ -37,7 +37,7 @@ RULE = ("scripts = per-iteration sequences of queries. exhaustive over the alpha
         "before a length query (or the reverse) in one iteration.")
 
 ALPHA6 = ["L", "N", "P", "T", "R", "Cx"]
-FULL = ALPHA6 + ["I", "J", "r", "F", "Y2", "Y3", "Y0", "C5", "D", "d"]
+FULL = ALPHA6 + ["I", "J", "r", "F", "Y2", "Y3", "Y0", "C55", "D", "d"]
 LOOKAHEAD, LENGTH = {"N", "T"}, {"L", "R", "r"}
 
 
@@ -45,6 +45,16 @@ class Plain:
     """a user object without __eq__ / __len__ (truthy, compared by identity)"""
     def __repr__(self):
         return "<Plain>"
+
+
+class Pos:
+    """second component of the pairs a loop with an unpacking target `for x, u_ in xs` iterates over"""
+    def __init__(self, k):
+        self.k = k
+
+
+def Pair(t):
+    return (t[0], Pos(t[1]))
 
 
 class SubStr(str):
@@ -114,6 +124,8 @@ class Canon:
     def item(self, v):
         if isinstance(v, self.Undefined):
             return self.a(v)
+        if isinstance(v, tuple) and len(v) == 2 and isinstance(v[1], Pos):
+            v = v[0]
         k = id_of(v)
         if k is not None:
             return f"v{k}"
@@ -190,6 +202,15 @@ async def agen_of(xs):
         yield x
 
 
+class AIterOnly:
+    """an async iterable that is not its own iterator: __aiter__ returns a fresh async generator, no __anext__"""
+    def __init__(self, xs):
+        self.xs = xs
+
+    def __aiter__(self):
+        return agen_of(self.xs)
+
+
 class OnlyIter:
     def __init__(self, xs):
         self.xs = xs
@@ -199,8 +220,8 @@ class OnlyIter:
 
 
 MAKE = {"list": list, "tuple": tuple, "iter": lambda xs: iter(list(xs)), "gen": gen_of, "agen": agen_of,
-        "onlyiter": OnlyIter}
-SIZED = {"list": "S", "tuple": "S", "iter": "U", "gen": "U", "agen": "U", "onlyiter": "U"}
+        "onlyiter": OnlyIter, "aiterable": AIterOnly}
+SIZED = {"list": "S", "tuple": "S", "iter": "U", "gen": "U", "agen": "U", "onlyiter": "U", "aiterable": "U"}
 
 
 def drive_sync(cn, LoopContext, Undefined, kind, xs, script, d0):
@@ -248,7 +269,7 @@ def line_L(k, f, d0, xs, script):
 TQ = {"L": "loop.length|a", "I": "loop.index0|a", "J": "loop.index|a", "R": "loop.revindex|a", "r": "loop.revindex0|a",
       "F": "loop.first|a", "T": "loop.last|a", "P": "loop.previtem|it", "N": "loop.nextitem|it",
       "Y2": "loop.cycle(101, 102)|it", "Y3": "loop.cycle(101, 102, 103)|it", "Cx": "loop.changed(x)|a",
-      "C5": "loop.changed(5)|a", "D": "loop.depth|a", "d": "loop.depth0|a"}
+      "C55": "loop.changed(55)|a", "D": "loop.depth|a", "d": "loop.depth0|a"}
 FILTERS = {"-": "", "o": " if x", "e": " if not x", "n": " if x is none and x"}
 
 
@@ -256,7 +277,7 @@ PRELUDES = ["", "{% macro mm(loop) %}{% endmacro %}", "{% with loop = 5 %}{% end
             "{% macro mm(a, loop=1) %}{{ loop }}{% endmacro %}", "{% macro mm2() %}{{ caller(1) }}{% endmacro %}{% call(loop) mm2() %}{% endcall %}"]
 
 
-def template_source(script, flt, prelude=0, scoped_wrap=False):
+def template_source(script, flt, prelude=0, scoped_wrap=False, unpack=False):
     """prelude: a nested scope that stores a name `loop` of its own BEFORE the loop variable is used"""
     body = PRELUDES[prelude]
     branches = []
@@ -271,7 +292,8 @@ def template_source(script, flt, prelude=0, scoped_wrap=False):
         # the only mentions of `loop` sit in a scoped block that is not a direct child of the loop body
         chain = body[len(PRELUDES[prelude]):]
         body = PRELUDES[prelude] + "{% if 1 %}{% block qq scoped %}" + chain + "{% endblock %}{% endif %}"
-    return "{% for x in xs" + FILTERS[flt] + " %}{{ x|iid }}:" + body + "|{% else %}ELSE{% endfor %}"
+    return ("{% for x" + (", u_" if unpack else "") + " in xs" + FILTERS[flt] + " %}{{ x|iid }}:" + body
+            + "|{% else %}ELSE{% endfor %}")
 
 
 def nested_template_source(qs, place, flt):
@@ -493,11 +515,25 @@ def run(ctx):
 
     ctx.proof("C07gen")
     trace_tie(ctx, jinja2)
+    # calling the loop variable of a loop without the `recursive` marker is the documented TypeError
+    for is_async in (False, True):
+        env = jinja2.Environment(enable_async=is_async)
+        t = env.from_string("{% for x in xs %}{{ loop(x) }}{% endfor %}")
+        ctx.case()
+        try:
+            out = asyncio.run(t.render_async(xs=[[1]])) if is_async else t.render(xs=[[1]])
+            ctx.reject({"via": "loop() without recursive", "async": is_async}, f"rendered {out!r} instead of raising TypeError",
+                       "loop() of a non-recursive loop does not raise TypeError")
+        except TypeError:
+            ctx.validated()
+        except Exception as e:  # noqa
+            ctx.reject({"via": "loop() without recursive", "async": is_async}, f"raised {type(e).__name__} instead of TypeError",
+                       "loop() of a non-recursive loop does not raise TypeError")
 
     bounds = ctx.size({0: 0, 1: 3, 2: 2, 3: 1, 4: 1}, {0: 0, 1: 3, 2: 3, 3: 2, 4: 1, 5: 1, 6: 1})
     scripts = list(exhaustive_scripts(bounds))
     ctx.count("exhaustive_scripts", len(scripts))
-    for _ in range(ctx.size(3000, 40000)):
+    for _ in range(ctx.size(1500, 40000)):
         n = ctx.rng.randint(0, 6)
         xs = [ctx.rng.randint(1, 8) for _ in range(n)]
         script = [[ctx.rng.choice(FULL) for _ in range(ctx.rng.randint(0, 3))] for _ in range(ctx.rng.randint(0, n + 1))]
@@ -541,7 +577,7 @@ def run(ctx):
             case = {"idx": idx, "via": "LoopContext", "iterable": kind, "items": xs, "script": script, "depth0": d0}
             judge(case, SIZED[kind], ("s", kind, tuple(xs), enc_script(script)) if nontrivial(SIZED[kind], script) else None, real)
             ctx.count("drive_sync_" + kind)
-        for kind in ("list", "tuple", "iter", "gen", "agen") + (("onlyiter",) if idx % 3 == 0 else ()):
+        for kind in ("list", "tuple", "iter", "gen", "agen") + (("onlyiter", "aiterable") if idx % 3 == 0 else ()):
             async_jobs.append((idx, kind, xs, script, d0))
 
     async def all_async():
@@ -563,27 +599,52 @@ def run(ctx):
         env.filters["it"] = cn.item
         env.filters["iid"] = cn.iid
         envs[mode] = env
-    n_tpl = ctx.size(1500, 15000)
+    def axis_env(mode, axis):
+        from jinja2.sandbox import ImmutableSandboxedEnvironment, SandboxedEnvironment
+        kw = {"enable_async": mode == "async"}
+        if axis == "sandboxed":
+            env = SandboxedEnvironment(**kw)
+        elif axis == "immutable":
+            env = ImmutableSandboxedEnvironment(**kw)
+        elif axis == "autoescape":
+            env = jinja2.Environment(autoescape=True, **kw)
+        elif axis == "unoptimized":
+            env = jinja2.Environment(optimized=False, **kw)
+        elif axis == "overlay":
+            env = jinja2.Environment(**kw).overlay(trim_blocks=True)
+        else:
+            env = jinja2.Environment(**kw)
+        env.filters["a"], env.filters["it"], env.filters["iid"] = cn.a, cn.item, cn.iid
+        return env
+
+    AXES = ["plain", "plain", "sandboxed", "immutable", "autoescape", "unoptimized", "overlay"]
+    axis_envs = {(m, a): axis_env(m, a) for m in ("sync", "async") for a in set(AXES)}
+    n_tpl = ctx.size(1000, 15000)
     tcases = []
     pool = [sc for sc in scripts if all(q != "Y0" for qs in sc[1] for q in qs)]
     for j in range(n_tpl):
         xs, script = pool[ctx.rng.randrange(len(pool))] if j % 3 else pool[j % len(pool)]
         flt = ctx.rng.choice(["-", "-", "o", "e", "n"])
         mode = "async" if j % 2 else "sync"
-        kind = ctx.rng.choice(["list", "tuple", "iter", "gen", "onlyiter"] + (["agen"] if mode == "async" else []))
+        kind = ctx.rng.choice(["list", "tuple", "iter", "gen", "onlyiter"] + (["agen", "aiterable"] if mode == "async" else []))
         tcases.append({"via": "template/" + mode, "iterable": kind, "items": xs, "script": script, "filter": flt, "depth0": 0,
-                       "prelude": ctx.rng.choice([0, 0, 0, 1, 2, 3, 4]), "scoped_wrap": ctx.rng.random() < 0.2})
+                       "prelude": ctx.rng.choice([0, 0, 0, 1, 2, 3, 4]), "scoped_wrap": ctx.rng.random() < 0.2,
+                       "unpack": ctx.rng.random() < 0.2, "axis": ctx.rng.choice(AXES)})
     tlines = [line_L("U" if c["filter"] != "-" else SIZED[c["iterable"]], c["filter"], 0, c["items"], c["script"]) for c in tcases]
     tout = ctx.driver("loop", tlines)
     for c, ln in zip(tcases, tout):
         m, s = ln[2:].split(" S ", 1)
         mode = c["via"].split("/")[1]
-        src = template_source(c["script"], c["filter"], c["prelude"], c["scoped_wrap"])
+        src = template_source(c["script"], c["filter"], c["prelude"], c["scoped_wrap"], c["unpack"])
         try:
-            t = envs[mode].from_string(src)
-            data = MAKE[c["iterable"]](reify(c["items"]))
-            real = asyncio.run(t.render_async(xs=data)) if mode == "async" else t.render(xs=data)
-            real = norm_template_output(real)
+            t = axis_envs[(mode, c["axis"])].from_string(src)
+
+            def fresh():
+                objs = reify(c["items"])
+                return MAKE[c["iterable"]]([Pair((o, k)) for k, o in enumerate(objs)] if c["unpack"] else objs)
+            real = asyncio.run(t.render_async(xs=fresh())) if mode == "async" else t.render(xs=fresh())
+            again = asyncio.run(t.render_async(xs=fresh())) if mode == "async" else t.render(xs=fresh())
+            real = norm_template_output(real) if again == real else "X:second render of the same template differs: " + again[:40]
         except Exception as e:  # noqa
             real = "X:" + type(e).__name__ + ":" + str(e)[:60]
         c2 = dict(c, template=src)
@@ -603,7 +664,7 @@ def run(ctx):
     # ---- nested loops: the OUTER loop variable referenced only from the header (iterable), the filter test or
     #      the else branch of an inner loop (extended-loop detection must look there); same queries every iteration
     ncases = []
-    for j in range(ctx.size(900, 9000)):
+    for j in range(ctx.size(600, 9000)):
         n = ctx.rng.randint(0, 5)
         xs = [ctx.rng.randint(1, 8) for _ in range(n)]
         place = ("iter", "else", "test")[j % 3]
@@ -613,7 +674,7 @@ def run(ctx):
             qs = [ctx.rng.choice([q for q in FULL if q != "Y0"]) for _ in range(ctx.rng.randint(1, 3))]
         flt = ctx.rng.choice(["-", "-", "-", "o", "e"])
         mode = "async" if (j // 3) % 2 else "sync"
-        kind = ctx.rng.choice(["list", "tuple", "iter", "gen"] + (["agen"] if mode == "async" else []))
+        kind = ctx.rng.choice(["list", "tuple", "iter", "gen"] + (["agen", "aiterable"] if mode == "async" else []))
         ncases.append({"via": "nested/" + mode, "iterable": kind, "items": xs, "script": [qs] * max(n, 1), "filter": flt,
                        "place": place, "depth0": 0})
     nout = ctx.driver("loop", [line_L("U" if c["filter"] != "-" else SIZED[c["iterable"]], c["filter"], 0, c["items"], c["script"])
@@ -650,11 +711,11 @@ def run(ctx):
         env.filters["iid"] = cn.iid
         lc_envs[mode] = env
     lcases = []
-    for j in range(ctx.size(1200, 12000)):
+    for j in range(ctx.size(800, 12000)):
         xs, script = pool[ctx.rng.randrange(len(pool))]
         flt = ctx.rng.choice(["-", "-", "o", "e", "n"])
         mode = "async" if j % 2 else "sync"
-        kind = ctx.rng.choice(["list", "tuple", "iter", "gen"] + (["agen"] if mode == "async" else []))
+        kind = ctx.rng.choice(["list", "tuple", "iter", "gen"] + (["agen", "aiterable"] if mode == "async" else []))
         uniform = ctx.rng.choice([None, None, None, "C", "B"])
         if uniform:
             script, ctls = [], [uniform] * 8
@@ -768,10 +829,11 @@ def replay(ctx, data):
             env, src = envs[mode], nested_template_source(case["script"][0], case["place"], flt)
             norm = lambda o: norm_template_output(o.replace(";|", "|"))  # noqa
         else:
-            env, src, norm = envs[mode], template_source(case["script"], flt, case.get("prelude", 0), case.get("scoped_wrap", False)), norm_template_output
+            env, src, norm = envs[mode], template_source(case["script"], flt, case.get("prelude", 0), case.get("scoped_wrap", False), case.get("unpack", False)), norm_template_output
         print("template:", src)
         t = env.from_string(src)
-        dat = MAKE[case["iterable"]](reify(case["items"]))
+        objs = reify(case["items"])
+        dat = MAKE[case["iterable"]]([Pair((o, k)) for k, o in enumerate(objs)] if case.get("unpack") else objs)
         try:
             real = norm(asyncio.run(t.render_async(xs=dat)) if mode == "async" else t.render(xs=dat))
         except Exception as e:  # noqa
